@@ -143,6 +143,28 @@ func (g *Gen) boolVar(val bool) string {
 	return "$" + name
 }
 
+// fieldDirective: the name of a custom directive the schema declares for the FIELD location ("" if
+// none), taking one optional String argument `tag`.
+func (g *Gen) fieldDirective() string {
+	var names []string
+	for n, d := range g.Schema.Directives {
+		switch n {
+		case "skip", "include", "defer", "deprecated", "specifiedBy", "oneOf":
+			continue
+		}
+		for _, l := range d.Locations {
+			if l == ast.LocationField && d.Arguments.ForName("tag") != nil {
+				names = append(names, n)
+			}
+		}
+	}
+	if len(names) == 0 {
+		return ""
+	}
+	sort.Strings(names)
+	return names[0]
+}
+
 // directives draws @skip/@include for a selection; returns the text (leading space) or "".
 func (g *Gen) directives() string {
 	if g.Opt.NoSkip || rapid.IntRange(0, 5).Draw(g.t, "dir?") != 0 {
@@ -465,7 +487,17 @@ func (g *Gen) field(parent *ast.Definition, f *ast.FieldDefinition, depth int) s
 	if key != f.Name {
 		out = key + ": " + f.Name
 	}
-	out += args + g.directives()
+	fx := ""
+	if d := g.fieldDirective(); d != "" && !g.Opt.NoSkip && rapid.IntRange(0, 5).Draw(g.t, "fx?") == 0 {
+		// an executable (FIELD) directive implemented by the user: always under a response key of its
+		// own, so that no other occurrence of the key is merged with it
+		g.nalias++
+		key = fmt.Sprintf("fx%d", g.nalias)
+		g.keys[key] = sig
+		out = key + ": " + f.Name
+		fx = fmt.Sprintf(" @%s(tag: \"t%d\")", d, g.nalias)
+	}
+	out += args + g.directives() + fx
 	if composite {
 		out += " " + g.selectionSet(ft, depth+1, false)
 	}
